@@ -36,7 +36,7 @@ FORK_WEIGHTS = dict(WEIGHTS, set_attr=6, set_attr_none=5, set_value=2, remove=4,
 
 def solo_trace(spec):
     """spec = {'element': el, 'ops': [...]} (ops may contain 'deepcopy' / 'copy_discard')"""
-    run = Run(spec['element'])
+    run = Run(spec['element'], spec.get('checked', True))
     tr = []
     if run.e is None:
         return tr
@@ -54,7 +54,7 @@ def interleaved_trace(specs, schedule):
     traces = [[] for _ in specs]
     for j, sp in enumerate(specs):
         if sp.get('fork_of') is None:
-            runs[j] = Run(sp['element'])
+            runs[j] = Run(sp['element'], sp.get('checked', True))
     for j in schedule:
         sp = specs[j]
         if runs[j] is None:
@@ -80,7 +80,7 @@ def check_case(case):
     traces, runs = interleaved_trace(specs, schedule)
     for j, sp in enumerate(specs):
         n = len(traces[j])
-        solo = solo_trace({'element': sp['element'], 'ops': sp['ops'][:n]})
+        solo = solo_trace({'element': sp['element'], 'ops': sp['ops'][:n], 'checked': sp.get('checked', True)})
         if solo != traces[j]:
             k = next((i for i, (a, b) in enumerate(zip(solo, traces[j])) if a != b), min(len(solo), n))
             fields = [f for f in (solo[k] if k < len(solo) else {}) if k < n and solo[k][f] != traces[j][k].get(f)]
@@ -212,7 +212,11 @@ def run_shard(ctx, shard, acc):
             else:
                 t1, els1 = data.draw(st.sampled_from(te))
                 specs.append({'element': data.draw(st.sampled_from(els1)), 'ops': [], 'fork_of': None})
-        runs = [Run(sp['element']) for sp in specs]
+        # some instances are born unchecked and switched to checked later (xsd_check is a settable property)
+        for sp in specs:
+            if data.draw(st.integers(0, 4)) == 0:
+                sp['checked'] = False
+        runs = [Run(sp['element'], sp.get('checked', True)) for sp in specs]
         if any(r.e is None for r in runs):
             return
         schedule = []
@@ -227,14 +231,17 @@ def run_shard(ctx, shard, acc):
                 schedule.append(0)
                 at = len(specs[0]['ops']) - 1
                 sp = {'element': el0, 'ops': [list(o) for o in specs[0]['ops'][:at]] + [['deepcopy']],
-                      'fork_of': 0, 'fork_at': at}
+                      'fork_of': 0, 'fork_at': at, 'checked': specs[0].get('checked', True)}
                 # the generator's own model of the fork: replay on a scratch object
                 specs.append(sp)
-                runs.append(replay(el0, sp['ops']))
+                runs.append(replay(el0, sp['ops'], sp.get('checked', True)))
                 schedule.append(len(specs) - 1)
                 forked = True
                 continue
-            op = draw_op(data, runs[j], FORK_WEIGHTS if rel == 'fork' else WEIGHTS)
+            if specs[j].get('checked') is False and data.draw(st.integers(0, 3)) == 0:
+                op = ['set_check', data.draw(st.integers(0, 1))]
+            else:
+                op = draw_op(data, runs[j], FORK_WEIGHTS if rel == 'fork' else WEIGHTS)
             runs[j].apply(op)
             specs[j]['ops'].append(op)
             schedule.append(j)
